@@ -1,6 +1,6 @@
 """C16 - cleaning keeps exactly the newest N: model/spec of robsd-clean + util.sh purge vs
 `bash robsd-clean -m canvas -C conf [count]` on generated roots, BSD userland behind shims (DESIGN.md 7, C16)."""
-import glob, hashlib, json, os, shutil, subprocess
+import glob, hashlib, json, os, re, shutil, subprocess
 from concurrent.futures import ThreadPoolExecutor
 import common, iv_common
 from common import hexs, unhex
@@ -8,13 +8,17 @@ from common import hexs, unhex
 TRANSLATORS = ['t_util']
 TRUSTED = ['PARTIAL CLAIM: bash standing in for ksh and GNU tail/find/cp/rm/tr/mkdir/touch standing in for the BSD userland, '
            'behind the stand-ins tools/shims/{stat (stat -f %Sm -t), find (-delete ignores ENOTEMPTY), chflags, logname, date}; '
-           'robsd-config and robsd-ls are the binaries rebuilt from the working tree; only -m canvas is run end to end '
-           '(the other modes differ in the id -u check only); names without newline, leading/trailing blanks or "/"; '
+           'robsd-config and robsd-ls are the binaries rebuilt from the working tree; robsd-clean is run in all five modes '
+           '(as uid 0; the modes differ in the id -u check and the configuration only), complete canvas invocations in the '
+           'trace lane; names without newline, leading/trailing blanks or "/"; '
            'file modes, owners and time stamps are not modelled; qsort as in C15; the keep directory is <robsddir>/attic '
            '(the configuration grammar accepts nothing else)']
 
 SIG_STALE = 'clean-stale-lock-keeps-one-less'
 SIG_RUNNING = 'clean-lock-spelled-differently'
+SIG_AGE = 'newest-is-name-order-not-age'
+SIG_BLOCKED = 'clean-attic-path-not-a-directory'
+OUT_NAMES = 'outside: attic enabled and an invocation directory not named Y-M-D'
 
 DAYS = ['2024-01-01', '2024-01-02', '2023-12-31']
 STRAY_DIRS = ['src', 'a-b', '2024', 'rel', 'x', '2024-01-02x', '-n', 'a--b']
@@ -53,26 +57,44 @@ def gen_case(rng):
         if rng.random() < 0.75:
             if rng.random() < 0.2:
                 names.append(d)
-            ks = [k for k in [1, 2, 3, 9, 10, 11] if rng.random() < 0.4]
+            if rng.random() < 0.12:
+                # a busy day: a run of consecutive numbers across the one-digit boundary
+                lo = rng.choice([2, 7, 8, 9])
+                ks = list(range(lo, rng.choice([10, 11, 12, 13]) + 1))
+            else:
+                ks = [k for k in [1, 2, 3, 9, 10, 11] if rng.random() < 0.4]
             names += ['%s.%d' % (d, k) for k in ks]
     if rng.random() < 0.15:
         names = names[:1]
     if rng.random() < 0.05:
         names = []
-    strays = [n for n in STRAY_DIRS if rng.random() < 0.08]
+    strays = [n for n in STRAY_DIRS if rng.random() < 0.03]
     for n in names + strays:
         ents.append([n, 'D', ''])
         ents += gen_inv_content(rng, n)
     for n in STRAY_FILES:
-        if rng.random() < 0.2:
+        if rng.random() < 0.2 and n not in names:
             ents.append([n, 'F', 'stray ' + n])
     if rng.random() < 0.2:
         ents.append(['.hidden', 'D', ''])
         ents.append(['.hidden/report', 'F', 'h'])
     if rng.random() < 0.15 and names:
         ents.append(['latest', 'L', names[-1]])
-    attic = rng.choice(['absent', 'absent', 'empty', 'old', 'old', 'collide'])
-    if attic != 'absent':
+    attic = rng.choice(['absent', 'absent', 'empty', 'old', 'old', 'collide', 'blocked'])
+    dated = [n for n in names if re.fullmatch(r'\d{4}-\d{2}-\d{2}\.\d+', n)]
+    if attic == 'blocked' and not dated:
+        attic = 'empty'
+    if attic == 'blocked':
+        # something that is not a directory where attic, attic/YYYY, attic/YYYY/MM or attic/YYYY/MM/DD.X of an
+        # invocation has to go
+        comps = ['attic'] + rng.choice(dated).replace('-', '/').split('/')
+        depth = rng.choice([1, 2, 2, 3, 4])
+        for i in range(1, depth):
+            ents.append(['/'.join(comps[:i]), 'D', ''])
+        if rng.random() < 0.5 and depth > 1:
+            ents.append(['attic/note', 'F', 'keep this'])
+        ents.append(['/'.join(comps[:depth]), 'F', 'in the way'])
+    elif attic != 'absent':
         ents.append(['attic', 'D', ''])
     if attic in ('old', 'collide'):
         ents += [['attic/2023', 'D', ''], ['attic/2023/11', 'D', ''], ['attic/2023/11/30.1', 'D', ''],
@@ -92,7 +114,8 @@ def gen_case(rng):
         lock = 'absent'
     return {'entries': ents, 'lock': lock, 'target': target, 'keep': rng.choice([0, 0, 1, 1, 2, 3, 5]),
             'count': rng.choice([None, None, 0, 1, 2, 3, 7]), 'attic': rng.random() < 0.7,
-            'spell': rng.choice(['abs', 'abs', 'abs', 'slash'])}
+            'spell': rng.choice(['abs', 'abs', 'abs', 'slash']),
+            'mode': rng.choice(['canvas', 'canvas', 'canvas'] + iv_common.MODES)}
 
 
 def materialize(case, root):
@@ -175,14 +198,16 @@ def run_one(ctx, impl, work, idx, case):
         if lc is not None:
             open(os.path.join(root, '.running'), 'w').write(lc)
         conf = os.path.join(d, 'conf')
-        open(conf, 'w').write('canvas-name "test"\ncanvas-dir "%s"\n%skeep-attic %s\nstep "a" command { "true" }\n'
-                              % (rootstr, ('keep %d\n' % case['keep']) if case['keep'] else '',
-                                 'yes' if case['attic'] else 'no'))
+        mode = case.get('mode', 'canvas')
+        extra = '%skeep-attic %s\n' % (('keep %d\n' % case['keep']) if case['keep'] else '', 'yes' if case['attic'] else 'no')
+        aux = os.path.join(d, 'aux')
+        os.mkdir(aux)
+        iv_common.write_conf(conf, mode, rootstr, aux, extra)
         before = iv_common.snapshot(root.encode())
         env = dict(os.environ)
         env['PATH'] = iv_common.SHIMS + ':' + env.get('PATH', '/usr/bin:/bin')
         env.update({'EXECDIR': impl, 'TMPDIR': tmp})
-        args = ['bash', os.path.join(impl, 'robsd-clean'), '-m', 'canvas', '-C', conf]
+        args = ['bash', os.path.join(impl, 'robsd-clean'), '-m', mode, '-C', conf]
         if case['count'] is not None:
             args.append(str(case['count']))
         try:
@@ -198,12 +223,111 @@ def run_one(ctx, impl, work, idx, case):
         shutil.rmtree(d, ignore_errors=True)
 
 
+def gen_trace(rng):
+    """consecutive complete canvas invocations on one day (each cleans with the configured keep while it runs)"""
+    return {'kind': 'trace', 'keep': rng.choice([1, 2, 2, 3]), 'attic': rng.random() < 0.8,
+            'runs': rng.choice([4, 5, 6, 7, 8])}
+
+
+def run_trace(ctx, impl, work, idx, case):
+    """-> [(derived case, observation)]: one per cleaning the real canvas performed"""
+    d = os.path.join(work, 't%d' % idx)
+    os.makedirs(d)
+    try:
+        root = os.path.join(d, 'root')
+        tmp = os.path.join(d, 'tmp')
+        snap = os.path.join(d, 'snap')
+        for x in (root, tmp, snap):
+            os.mkdir(x)
+        conf = os.path.join(d, 'conf')
+        open(conf, 'w').write('canvas-name "test"\ncanvas-dir "%s"\nkeep %d\nkeep-attic %s\nstep "a" command { "true" }\n'
+                              % (root, case['keep'], 'yes' if case['attic'] else 'no'))
+        env = dict(os.environ)
+        env['PATH'] = iv_common.SHIMS + ':' + env.get('PATH', '/usr/bin:/bin')
+        env.update({'EXECDIR': impl, 'TMPDIR': tmp, 'VERIF_FAKE_DATE': case.get('date', '2024-03-05'),
+                    'ROBSDCLEAN': os.path.join(iv_common.SHIMS, 'robsd-clean-snap'), 'VERIF_SNAP': snap, 'VERIF_SNAP_ROOT': root})
+        born = []
+        res = []
+        for i in range(case['runs']):
+            try:
+                r = subprocess.run(['bash', os.path.join(impl, 'canvas'), '-d', '-C', conf], env=env, cwd=d,
+                                   stdout=subprocess.PIPE, stderr=subprocess.STDOUT, timeout=120)
+                out = r.stdout.decode('latin1')
+            except subprocess.TimeoutExpired:
+                out = 'timeout'
+            m = re.search(r'using directory (\S+) at step (\d+)', out)
+            used = os.path.basename(m.group(1)).encode() if m else None
+            n = i + 1
+            if used is None or not os.path.isdir(os.path.join(snap, 'before.%d' % n)):
+                raise common.BuildFailure('trace lane: canvas run %d did not get as far as robsd-clean:\n%s' % (n, out[-600:]))
+            if used in born:
+                born.remove(used)
+            born.append(used)                  # creation order, oldest first; a reused name counts as made again
+            before = iv_common.snapshot(os.path.join(snap, 'before.%d' % n).encode())
+            after = iv_common.snapshot(os.path.join(snap, 'after.%d' % n).encode())
+            lock = before.get(b'.running', ('f', None))[1]
+            derived = {'entries': [], 'lock': 'valid', 'target': used.decode('latin1'), 'keep': case['keep'], 'count': None,
+                       'attic': case['attic'], 'spell': 'abs', 'origin': case, 'step': n}
+            res.append((derived, {'rootstr': root.encode(), 'lock': lock, 'before': before, 'after': after,
+                                  'rc': int(open(os.path.join(snap, 'rc.%d' % n)).read().strip() or -1),
+                                  'out': open(os.path.join(snap, 'out.%d' % n), 'rb').read(),
+                                  'err': open(os.path.join(snap, 'err.%d' % n), 'rb').read(), 'tmp_leftover': [],
+                                  'ages': list(reversed(born))}))
+        return res
+    finally:
+        shutil.rmtree(d, ignore_errors=True)
+
+
 def load_corpus():
-    return [json.load(open(p)) for p in sorted(glob.glob(os.path.join(common.VERIF, 'corpus', 'C16', '*.json')))]
+    d = os.path.join(common.VERIF, 'corpus', 'C16')
+    files = sorted(glob.glob(os.path.join(d, '*.json')))
+    if not files:
+        raise common.BuildFailure('corpus/C16 is missing or empty: the replays of the known and fixed findings cannot run')
+    return [json.load(open(p)) for p in files]
+
+
+DATED = re.compile(rb'(\d{4}-\d{2}-\d{2})\.([1-9]\d*)')
+
+
+def age_key(name):
+    """The order in which the harness "made" the invocations of a generated root: DATE.k is the k-th invocation of
+    its day, so among names of one date the numeric suffix decides; everything else is ordered as robsd-ls orders
+    it (bytes).  Realised by comparing the names with the suffix zero-padded - the only pairs this orders
+    differently from strcmp are same-date names whose suffixes differ in length (DATE.9 / DATE.10)."""
+    m = DATED.fullmatch(name)
+    return m.group(1) + b'.' + m.group(2).rjust(12, b'0') if m else name
+
+
+def invocations_of(snap):
+    return [p for p, v in snap.items() if b'/' not in p and v[0] == 'd' and not p.startswith(b'.') and p != b'attic']
+
+
+def ages_of(o):
+    """the invocations by age, newest first: the order the trace lane recorded, else the order of generation"""
+    if o.get('ages') is not None:
+        return [a for a in o['ages'] if a in invocations_of(o['before'])]
+    return sorted(invocations_of(o['before']), key=age_key, reverse=True)
+
+
+SHAPED = re.compile(rb'[^-/]+-[^-/]+-[^-/]+')
+
+
+def outside_names(c, before):
+    """C16 speaks of invocations that reappear as attic/YYYY/MM/DD.X: names of the shape Y-M-D, which is what
+    build_id hands out (C16_names_are_date_shaped).  A root in which some OTHER directory sits next to them
+    (src, a-b, 2024 - robsd-ls lists them, so purge treats them as invocations) has no destination of that
+    shape for it, and two such names can share one (a-b / a--b, a-a / a: C16_attic_complete_refuted).  With the
+    attic enabled such a root is outside the statement: the case is counted, not judged by the oracle; the
+    model-vs-implementation comparison still runs on it.  With the attic disabled the oracle judges every root."""
+    return c['attic'] and any(not SHAPED.fullmatch(n) for n in invocations_of(before))
 
 
 def strip_lock(snap):
     return {k: v for k, v in snap.items() if k != b'.running'}
+
+
+def replayable(c):
+    return c.get('origin', c)
 
 
 def running_name(case):
@@ -221,16 +345,25 @@ def evaluate(ctx, cases, res, impl=None):
         if s not in ctx.shims_used:
             ctx.shims_used.append(s)
     work = ctx.mkscratch('c16work')
+    if any(c.get('kind') == 'trace' for c in cases):
+        for s in ('tools/shims/robsd-clean-snap (wrapper keeping copies of the root)', 'tools/shims/sendmail'):
+            if s not in ctx.shims_used:
+                ctx.shims_used.append(s)
     with ThreadPoolExecutor(8) as ex:
-        obs = list(ex.map(lambda ic: run_one(ctx, impl, work, ic[0], ic[1]), enumerate(cases)))
+        parts = list(ex.map(lambda ic: run_trace(ctx, impl, work, ic[0], ic[1]) if ic[1].get('kind') == 'trace'
+                            else [(ic[1], run_one(ctx, impl, work, ic[0], ic[1]))], enumerate(cases)))
+    cases = [c for part in parts for c, _ in part]
+    obs = [o for part in parts for _, o in part]
     qs = []
     for c, o in zip(cases, obs):
         lock = '!' if o['lock'] is None else hexs(o['lock'])
         cnt = '!' if c['count'] is None else str(c['count'])
         head = [hexs(o['rootstr']), str(c['keep']), cnt, '1' if c['attic'] else '0', lock]
         qs.append(' '.join(['clean'] + head + snap_tokens(strip_lock(o['before']))))
+        ages = ages_of(o)
         qs.append(' '.join(['cleanok'] + head + [hexs((running_name(c) or '').encode()) if running_name(c) else '!',
                                                    str(o['rc'] if o['rc'] >= 0 else 999)]
+                           + [str(len(ages))] + [hexs(a) for a in ages]
                            + [str(len(snap_tokens(strip_lock(o['before']))))] + snap_tokens(strip_lock(o['before']))
                            + snap_tokens(strip_lock(o['after']))))
     ans = common.run_driver(drv, qs)
@@ -239,18 +372,19 @@ def evaluate(ctx, cases, res, impl=None):
     qs2 = []
     idx2 = []
     for i, (c, o) in enumerate(zip(cases, obs)):
-        if c['lock'] in ('absent', 'nonl', 'valid'):
+        if c['lock'] in ('absent', 'nonl', 'valid') and not outside_names(c, o['before']) and not blocked_possible(c, o['before']):
+            # the guards of C16_oracle_accepts_model: consistent lock, names Y-M-D, every victim archived
             mt = ans[2 * i].split()
             lock = '!' if o['lock'] is None else hexs(o['lock'])
             cnt = '!' if c['count'] is None else str(c['count'])
             bt = snap_tokens(strip_lock(o['before']))
             qs2.append(' '.join(['cleanok', hexs(o['rootstr']), str(c['keep']), cnt, '1' if c['attic'] else '0', lock,
-                                 hexs(running_name(c).encode()) if running_name(c) else '!', mt[0], str(len(bt))]
+                                 hexs(running_name(c).encode()) if running_name(c) else '!', mt[0], '!', str(len(bt))]
                                 + bt + mt[2:]))
             idx2.append(i)
     for i, a in zip(idx2, common.run_driver(drv, qs2) if qs2 else []):
         if a != '1':
-            res.tie_errors.append('the model of robsd-clean does not satisfy spec_ok_clean on %s' % json.dumps(cases[i])[:400])
+            res.tie_errors.append('the model of robsd-clean does not satisfy spec_ok_clean on %s' % json.dumps(replayable(cases[i]))[:400])
     for i, (c, o) in enumerate(zip(cases, obs)):
         m, ok = ans[2 * i], ans[2 * i + 1]
         res.evaluations += 1
@@ -262,11 +396,13 @@ def evaluate(ctx, cases, res, impl=None):
         nrem = sum(1 for p, v in o['before'].items() if b'/' not in p and v[0] == 'd' and p not in o['after'])
         res.count('keep=%d' % eff)
         res.count('lock=' + c['lock'])
+        res.count('lane=' + ('trace' if 'origin' in c else 'root'))
         res.count('attic=' + ('yes' if c['attic'] else 'no'))
+        res.count('mode=' + c.get('mode', 'canvas'))
         res.count('invocations=%s' % (ninv if ninv < 8 else '8+'))
         res.count('removed=%s' % (nrem if nrem < 5 else '5+'))
         if eff > 0 and nrem >= 1 and ninv - nrem >= 1:
-            res.nontrivial.add(hashlib.sha1(json.dumps(c, sort_keys=True).encode()).hexdigest())
+            res.nontrivial.add(hashlib.sha1(json.dumps([replayable(c), c.get('step')], sort_keys=True).encode()).hexdigest())
         diffs = []
         if str(o['rc']) != mrc:
             diffs.append('exit %s vs model %s' % (o['rc'], mrc))
@@ -280,42 +416,124 @@ def evaluate(ctx, cases, res, impl=None):
         if o['tmp_leftover']:
             diffs.append('temporary files left: %r' % o['tmp_leftover'][:3])
         if diffs:
-            res.disagreements.append({'case': c, 'model': '; '.join(diffs), 'impl': o['out'][-300:].decode('latin1'),
+            res.disagreements.append({'case': replayable(c), 'model': '; '.join(diffs), 'impl': o['out'][-300:].decode('latin1'),
                                       'stderr': o['err'][-300:].decode('latin1')})
+        if outside_names(c, o['before']):
+            # not judged: see outside_names
+            res.count(OUT_NAMES)
+            continue
+        res.count('judged')
+        if ages_of(o) != sorted(invocations_of(o['before']), reverse=True):
+            res.count('age order differs from name order')
         if ok != '1':
             sig, what = classify(c, o, eff)
-            res.oracle_failures.append({'case': c, 'signature': sig, 'what': what,
+            res.oracle_failures.append({'case': replayable(c), 'signature': sig, 'what': ('cleaning of run %d: ' % c['step'] if 'step' in c else '') + what,
                                         'impl': o['out'][-300:].decode('latin1'), 'oracle': ok})
     return res
 
 
+def blocked_possible(c, before):
+    """something that is not a directory sits where an attic directory of one of the invocations has to go"""
+    nondirs = {p for p, v in before.items() if v[0] != 'd'}
+    return c['attic'] and any(p in nondirs for v in invocations_of(before) for p in attic_paths(v))
+
+
+def lock_first_line(o):
+    """the value of ${builddir}: the first line of .running, if it has one"""
+    l = o['lock']
+    if l is None or b'\n' not in l.split(b'\0')[0]:
+        return None
+    return l.split(b'\0')[0].split(b'\n')[0]
+
+
+def attic_paths(v):
+    """attic, attic/Y, attic/Y/M, attic/Y/M/D.X for an invocation named Y-M-D.X"""
+    comps = [b'attic'] + [x for x in v.replace(b'-', b'/').split(b'/') if x]
+    return [b'/'.join(comps[:i]) for i in range(1, len(comps) + 1)]
+
+
 def classify(c, o, eff):
+    """Which failure of the property this is.  The four findings that are known (known_findings.json) are recognised
+    by the input class they belong to AND by the exact behaviour recorded for them; anything else under the same
+    kind of lock / root is an ordinary violation with its own signature."""
     before, after = strip_lock(o['before']), strip_lock(o['after'])
-    inv = sorted((p for p, v in before.items() if b'/' not in p and v[0] == 'd' and not p.startswith(b'.') and p != b'attic'),
-                 reverse=True)
-    left = [p for p in inv if p in after]
+    inv = sorted(invocations_of(before), reverse=True)            # the order robsd-ls lists them in
+    ages = ages_of(o)                                              # the order they were made in, newest first
+    left = [p for p in inv if p in after and after[p][0] == 'd']
     run = running_name(c)
+    runb = run.encode() if run is not None else None
     if eff == 0:
         return 'clean-zero-not-a-noop', 'retention 0 changed the tree'
-    if run is not None and run.encode() not in left:
-        return SIG_RUNNING, ('robsd-clean moved the running invocation %s away: the lock file names it as %r, robsd-ls -B '
-                             'compares strings' % (run, (o['lock'] or b'').decode('latin1').strip()))
-    want = min(eff, len(inv))
-    if len(left) < want:
-        if c['lock'] == 'respelled':
-            return SIG_RUNNING, ('retention %d but %d of %d invocations left: the lock file names the running invocation as %r, '
-                                 'robsd-ls -B compares strings and excludes nothing while purge skips the +1 compensation'
-                                 % (eff, len(left), len(inv), (o['lock'] or b'').decode('latin1').strip()))
-        if c['lock'] in ('stale', 'hidden'):
-            return SIG_STALE, ('retention %d but %d of %d invocations left: the lock file names a directory that is not an '
-                               'invocation of the root, purge then skips the +1 compensation' % (eff, len(left), len(inv)))
+    line = lock_first_line(o)
+    printed = {o['rootstr'] + b'/' + p: p for p in inv}
+
+    def kept_of(order):
+        if runb is not None and runb in order:
+            return [runb] + [p for p in order if p != runb][:eff - 1]
+        return order[:eff]
+
+    # (1) the attic path of a victim is blocked by something that is not a directory: the victims before it are
+    #     archived, the blocked one and every later one are still in the root (C16_attic_blocked_refuted)
+    if c['attic']:
+        # the victims as purge selects them for this lock line: the listing (name order) minus the path the line
+        # names, from position eff - or eff+1 when there is no line
+        if line is None:
+            vict = inv[eff:]
+        elif line in printed:
+            vict = [p for p in inv if p != printed[line]][eff - 1:]
+        else:
+            vict = inv[eff - 1:]
+        spared = [p for p in inv if p not in vict]
+        nondirs = {p for p, v in before.items() if v[0] != 'd'}
+        for i, v in enumerate(vict):
+            if any(p in nondirs for p in attic_paths(v)):
+                if [p for p in vict if p in left] == vict[i:] and set(spared) <= set(left) and o['rc'] == 0:
+                    return SIG_BLOCKED, ('%r where the attic directory of %s has to go is not a directory: purge stopped there, '
+                                         '%d of %d victims are still in the root (the first of them without its logs), exit 0'
+                                         % ([p for p in attic_paths(v) if p in nondirs][0].decode('latin1'), v.decode('latin1'),
+                                            len(vict) - i, len(vict)))
+                break
+    # (2) the lock's first line denotes the running invocation but is spelled differently from the path
+    #     robsd-ls prints: -B omits nothing, purge skips the +1: the eff-1 first names are left
+    if c['lock'] == 'respelled' and runb is not None and line is not None and line not in printed \
+            and os.path.normpath(line.decode('latin1')) == os.path.normpath((o['rootstr'] + b'/' + runb).decode('latin1')) \
+            and left == inv[:eff - 1]:
+        return SIG_RUNNING, ('the lock file names the running invocation %s as %r, robsd-ls prints %r: -B omitted nothing and '
+                             'purge skipped the +1 compensation, %d of %d invocations left%s'
+                             % (run, line.decode('latin1'), (o['rootstr'] + b'/' + runb).decode('latin1'), len(left), len(inv),
+                                '' if runb in left else ', the running one archived'))
+    # (3) the lock names no listed path at all (stale, hidden): exactly eff-1 are left, the first ones by name
+    if c['lock'] in ('stale', 'hidden') and line is not None and line not in printed and run is None \
+            and len(inv) >= eff and left == inv[:eff - 1]:
+        return SIG_STALE, ('retention %d but %d of %d invocations left: the lock file names %r, which is not an invocation '
+                           'of the root, purge then skips the +1 compensation'
+                           % (eff, len(left), len(inv), line.decode('latin1')))
+    # (4) "newest" is name order: a consistent lock (or none), the kept set is the one by NAME and it is not the
+    #     one by AGE (only possible when two names of one day have suffixes of different length)
+    numeric = sorted(inv, key=age_key, reverse=True)
+    if ages != numeric and set(left) == set(kept_of(inv)) and set(kept_of(inv)) != set(kept_of(ages)):
+        # the order of creation is not even the numeric order of the suffixes: a name was handed out BELOW names in use
+        # (defect D23, repaired in /repo 8474b10; this is its signature, not the known finding below)
+        return 'reissued-name-sorts-below-existing', (
+            'made in the order %s (oldest first); retention %d kept %s, the greatest names, and archived %s'
+            % (b' '.join(reversed(ages)).decode('latin1'), eff, b' '.join(left).decode('latin1'),
+               b' '.join(p for p in kept_of(ages) if p not in left).decode('latin1')))
+    if ages != inv and ages == numeric and (line is None or (runb is not None and line == o['rootstr'] + b'/' + runb)) \
+            and set(left) == set(kept_of(inv)) and set(kept_of(inv)) != set(kept_of(ages)):
+        gone = [p for p in kept_of(ages) if p not in left]
+        return SIG_AGE, ('retention %d: kept %s - the greatest names; the most recently made are %s: %s archived although newer '
+                         'than %s' % (eff, b' '.join(left).decode('latin1'), b' '.join(kept_of(ages)).decode('latin1'),
+                                      b' '.join(gone).decode('latin1'),
+                                      b' '.join(p for p in left if p not in kept_of(ages)).decode('latin1')))
+    want = kept_of(ages)
+    if runb is not None and runb not in left:
+        return 'clean-removes-running-invocation', 'the running invocation %s is gone; lock %r' % (run, line)
+    if len(left) < len(want):
         return 'clean-keeps-too-few', 'retention %d but only %d of %d invocations left' % (eff, len(left), len(inv))
-    if len(left) > want:
+    if len(left) > len(want):
         return 'clean-keeps-too-many', 'retention %d but %d of %d invocations left' % (eff, len(left), len(inv))
-    others = [p for p in inv if run is None or p != run.encode()]
-    keep_others = others[:want - (1 if run is not None else 0)]
-    if set(left) != set(keep_others) | ({run.encode()} if run is not None else set()):
-        return 'clean-keeps-wrong-invocations', 'kept %r' % left
+    if set(left) != set(want):
+        return 'clean-keeps-wrong-invocations', 'kept %r, the most recent are %r' % (left, want)
     for p, v in before.items():
         top = p.split(b'/')[0]
         if top != b'attic' and top not in inv and after.get(p) != v:
@@ -327,6 +545,10 @@ def classify(c, o, eff):
     for p in after:
         if p.split(b'/')[0] in set(inv) - set(left):
             return 'clean-leaves-part-of-victim', 'entry %r still in the root' % p
+    for p, v in before.items():
+        if p.split(b'/')[0] == b'attic' and v[0] == 'f' and after.get(p) != v and \
+                not any(p == d or p.startswith(d + b'/') for w in inv if w not in left for d in [attic_paths(w)[-1]]):
+            return 'clean-changes-old-attic-content', 'attic entry %r changed or removed' % p
     return 'clean-attic-content', 'attic content is not the whitelisted part of the removed invocations'
 
 
@@ -336,11 +558,12 @@ def run(ctx, n=None):
                 'directories/files/symlinks/hidden directories, invocation content drawn from whitelisted and near-miss names '
                 '(tmp with whitelisted names inside, whitelisted names in nested directories, directories named like whitelisted '
                 'files, empty directories, symlinks), attic absent/empty/with earlier content/with the destination already '
-                'there, lock absent/valid/stale/spelled differently/without newline/naming a hidden directory, keep 0-5 x count '
+                'there / a plain file where an attic directory has to go, busy days (DATE.7 ... DATE.13), lock '
+                'absent/valid/stale/spelled differently/without newline/naming a hidden directory, keep 0-5 x count '
                 'argument none/0/1-7, attic on/off, robsddir with and without trailing slash; non-trivial = retention > 0, at '
                 'least one invocation removed and at least one left; distinct by content hash')
     n = n or ctx.budget(150, 3000)
-    cases = load_corpus() + [gen_case(ctx.rng) for _ in range(n)]
+    cases = load_corpus() + [gen_case(ctx.rng) for _ in range(n)] + [gen_trace(ctx.rng) for _ in range(ctx.budget(3, 40))]
     res.samples = cases[:2]
     res.assumptions = ['trees of up to ~300 entries in the correspondence (the theorems have no bound)']
     impl = ctx.build_impl()
